@@ -57,7 +57,7 @@ pub fn intersect_triangle(
     let q = s.cross(edge1);
     let v = f * (ray.direction * q);
 
-    if !(0.0..=1.0).contains(&v) {
+    if !(0.0..=1.0).contains(&v) || u + v > 1. {
         return None;
     }
     let t = f * (edge2 * q);
